@@ -194,36 +194,131 @@ def build_queue(ctx, db, rid):
         ctx.paths(rid, len(trs))
         bad = None; moved = 0
         for tr in trs:
-            alias = {}
-            for i, it in enumerate(tr):
-                if it.k == 'decl' and re.fullmatch(r'local:\w+', it.get('init') or ''):
-                    a = alias.setdefault(it['init'], {it['init']}); a.add(it['var']); alias[it['var']] = a
-                elif it.k == 'write' and re.fullmatch(r'local:\w+', it.get('path') or ''):
-                    p = it['path']
-                    if p in alias:
-                        alias[p].discard(p); alias.pop(p)
-                elif it.k == 'write' and (it.get('path') or '').endswith('->_next'):
-                    node = it['path'][:-len('->_next')]
-                    moved += 1
-                    if it.get('rhs') != 'this->_queue':
-                        bad = bad or ('a detached request is not linked in front of the private FIFO', tr)
-                    # the link of this node must already have been consumed: no alias of node may still be the cursor whose ->_next is read later
-                    for jt in tr[i + 1:]:
-                        if jt.k == 'read' and (jt.get('path') or '').endswith('->_next'):
-                            src = jt['path'][:-len('->_next')]
-                            if src == node or src in alias.get(node, ()):
-                                bad = bad or ('the link of a request is read after it was overwritten (the rest of the stack is lost)', tr)
-                        if jt.k == 'write' and jt.get('path') in alias.get(node, {node}) | {node}:
-                            break
-                    nxt = next((jt for jt in tr[i + 1:] if jt.k == 'write' and jt.get('path') == 'this->_queue'), None)
-                    if nxt is None or nxt.get('rhs') != node:
-                        bad = bad or ('the private FIFO head is not set to the relinked request', tr)
+            n_, why = relink_walk(tr)
+            moved += n_
+            if why:
+                bad = bad or (why, tr)
         if moved == 0 and not bad:
             bad = ('no path moves a request into the private FIFO', trs[0] if trs else [])
         ctx.ob(rid, f, f['key'], bad is None, 'requests are moved one by one to the head of the FIFO, link read first' + ('' if not bad else ' -- ' + bad[0]), desc=bad[0] if bad else None,
                trace=fmt_trace(bad[1]) if bad else None)
     found = who(db, lambda f, e: e.k == 'call' and norm(e.get('callee')) == 'cocls::mutex::build_queue')
     check_who(ctx, rid, found, {'cocls::mutex::unlock', 'cocls::mutex::subscribe'}, 'call of build_queue', db=db)
+
+
+_LNK = '->_next'
+_FRONT = 'a detached request is not linked in front of the private FIFO'
+_HEAD = 'the private FIFO head is not set to the relinked request'
+_LOST = 'the link of a request is read after it was overwritten (the rest of the stack is lost)'
+
+
+def relink_walk(tr):
+    """one path of build_queue read as a small program over pointer VALUES instead of variable names, so that the verdict does not depend on
+    which local holds the cursor, whether it is re-declared in every iteration, or whether the head is swapped by std::exchange:
+      N0 = what the exchange on _requests returned, ('next', n) = the link request n carried when it was detached, Q0 = the FIFO head on entry.
+    Every store into some request's _next is a move of that request; it must store the head the FIFO has without that request (the current
+    head when the request is installed afterwards, the replaced head when std::exchange(_queue, x) installed it first), the request becomes
+    the head, and no link is read once it has been overwritten.  At the end the FIFO must be the moved requests, last detached first, in
+    front of Q0.  Returns (number of moves, first violated clause or None)"""
+    val = {}; link = {}
+    st = {'q': 'Q0', 'qprev': None, 'x': None, 'pending': None}
+    bad = []; moved = [0]
+
+    def peel(p):
+        p = p or ''
+        for _ in range(6):
+            m = re.fullmatch(r'(?:move|forward|ctor)\((.*)\)', p)
+            if not m:
+                break
+            p = m.group(1)
+        return p
+
+    def ev(p):
+        p = peel(p)
+        if p in val:
+            return val[p]
+        if p in ('nullptr', '0', 'NULL', '{}'):
+            return 'null'
+        if p == 'this->_queue':
+            return st['q']
+        if p.endswith(_LNK):
+            n = ev(p[:-len(_LNK)])
+            return link[n] if n in link else ('next', n)
+        if p == 'call(std::exchange)':
+            return st['x'] if st['x'] is not None else ('?', p)
+        if re.fullmatch(r'call\(std::atomic(<.*>)?::exchange\)', p):
+            return 'N0'
+        return ('?', p)
+
+    def rhs_of(it):
+        if it.get('rhs') is not None:
+            return ev(it['rhs'])
+        return 'null' if it.get('const') == 0 else ('?', it.get('loc'))
+
+    def set_head(v):
+        st['qprev'] = st['q']; st['q'] = v
+        if st['pending'] is not None:
+            if v != st['pending']:
+                bad.append(_HEAD)
+            st['pending'] = None
+
+    def relink(node, v):
+        moved[0] += 1
+        if st['pending'] is not None:
+            bad.append(_HEAD)
+        if st['q'] == node and st['qprev'] is not None and node != 'Q0':
+            # the head was switched to this request first (x->_next = std::exchange(_queue, x)): its link must be the head it replaced
+            if v != st['qprev']:
+                bad.append(_FRONT)
+            st['pending'] = None
+        else:
+            if v != st['q']:
+                bad.append(_FRONT)
+            st['pending'] = node
+        link[node] = v
+
+    for it in tr:
+        p = it.get('path') or ''
+        if it.k == 'decl':
+            var = it.get('var')
+            if it.get('init') is not None:
+                if peel(it['init']) == var:
+                    val.pop(var, None)          # a copy-propagated local is named by its own initialiser
+                val[var] = ev(it['init'])
+            else:
+                val[var] = 'null' if it.get('const') == 0 else ('?', var)
+        elif it.k == 'read' and p.endswith(_LNK):
+            if ev(p[:-len(_LNK)]) in link:
+                bad.append(_LOST)
+        elif it.k == 'write' and p.endswith(_LNK):
+            if (it.get('op') or '=') != '=':
+                bad.append(_FRONT)
+            relink(ev(p[:-len(_LNK)]), rhs_of(it))
+        elif it.k == 'write' and p == 'this->_queue':
+            set_head(rhs_of(it))
+        elif it.k == 'write' and p and not it.get('init'):
+            val[p] = rhs_of(it) if (it.get('op') or '=') == '=' else ('?', it.get('loc'))
+        elif it.k == 'call' and norm(it.get('callee') or '') == 'std::exchange' and len(it.get('args') or []) > 1:
+            tgt = peel(it['args'][0].get('path')); new = ev(it['args'][1].get('path'))
+            if it['args'][1].get('path') is None and it['args'][1].get('const') == 0:
+                new = 'null'
+            st['x'] = ev(tgt)
+            if tgt == 'this->_queue':
+                set_head(new)
+            elif tgt.endswith(_LNK):
+                if ev(tgt[:-len(_LNK)]) in link:
+                    bad.append(_LOST)           # the exchange reads the link it replaces
+                relink(ev(tgt[:-len(_LNK)]), new)
+            elif tgt:
+                val[tgt] = new
+    if st['pending'] is not None:
+        bad.append(_HEAD)
+    c = st['q']; chain = []
+    while c != 'Q0' and c in link and c not in chain:
+        chain.append(c); c = link[c]
+    if c != 'Q0' or set(chain) != set(link):
+        bad.append(_HEAD)
+    return moved[0], (bad[0] if bad else None)
 
 
 def private_fifo(ctx, db, rid):
